@@ -55,6 +55,12 @@ CHECKS.update({
  'C19': ('model_checking', 'TLC model checking of Dictionary.tla (laws of the reachable-fields / required-tags / group-member operators) + the real datadictionary package loading shipped and generated specifications + TLC trace validation against documents exported by an independent XML walk (DictTrace.tla)',
          'The shipped specification files in full (all nine in thorough) and generated specifications with nested components and groups, optional/required members, dangling references, the required-through-optional-component shape.', '6 C19',
          CODEC_NOTE + ' The independent XML walk (lib/xmlwalk.py) is the ground truth for what a specification file says.'),
+ 'C02': ('model_checking', 'TLC model checking of SendPath.tla (sender goroutines, session loop, resendMutex/sendMutex; the weakened protocols with a lock dropped must violate) + real sender goroutines against the real run loop with concurrent resend rounds, rejects and test requests, recorded through a recording store and the outbound channel + TLC evaluation of the C02 clauses on every recorded run (SendPathTrace.tla)',
+         'Every interleaving of 2-3 senders x 2 messages x loop actions in the model; on the code, recorded (not forced) schedules of 4-8 goroutines x 150-200 messages with 8-12 resend rounds per run, memory store in quick, memory/file/sqlite in thorough.', '6 C02',
+         'Trusted: the Go scheduler producing the races (a lost lock shows only if the race occurs in the recorded runs, or kills the process with a runtime fatal error, which is reported as a violation); causal ordering of store saves and channel receipts by one atomic counter.'),
+ 'C05': ('model_checking', 'TLC model checking of Pair.tla (two Engine.tla machines, in-flight queues, sends, deliveries, cuts, reconnects, timer events, restarts; safety and completion after Stabilize(4)) + graph-covering and random fault schedules executed on two REAL sessions stepped against each other (memory stores; file stores with engine restarts) + TLC trace validation (PairTrace.tla: monitors and conformance of both engines)',
+         'Exhaustive on <= 3 sends, <= 2 cuts, <= 1 restart, <= 2 timer events, <= 3 messages in flight; on the code every edge of the cut-only graph plus hundreds (quick) / thousands (thorough) of random schedules with cuts, reconnects, heartbeats, peer timeouts and restarts.', '6 C05',
+         SESSION_NOTE + ' No real sockets or wall-clock timers: the link staying up for a few heartbeat intervals is the deterministic settling operator.'),
 })
 NA = {}
 for l in open(V + '/properties.jsonl'):
